@@ -55,10 +55,52 @@ class Prop(c09.Prop):
         'the chain starts from reference-encoded files (mc/ref/rfortran.py) so that a symmetric reader/writer '
         'slip is still seen by C09; here only library-vs-library equalities and the encoded instants are judged',
         'float data are compared bit for bit (negative zero, denormals and the largest float32 included)',
-        'land-use and cloud/rain files are not generated (no independent encoder was written for them)',
     ]
 
+    def run_landuse(self, d):
+        r = camx_u.materialize_landuse(d)
+        raw = rf.enc_landuse(r)
+        p0, p1, p2 = self.path('r0'), self.path('w1'), self.path('w2')
+        with open(p0, 'wb') as fh:
+            fh.write(raw)
+        scope = dict(fmt='landuse', style=d['style'], others='+'.join(d['others']) or 'none',
+                     shape='x'.join(str(x) for x in d['shape']), payload=d['payload'],
+                     ncell=d['shape'][0] * d['shape'][1])
+        vs = []
+        for tag in ('roundtrip', 'roundtrip-hand-built'):
+            sig = (tag, 'landuse')
+            for p in (p1, p2):
+                if os.path.exists(p):
+                    os.unlink(p)
+            try:
+                if tag == 'roundtrip':
+                    fa = cl.open_lu(p0, r)
+                    pa = present(fa)
+                else:
+                    fa = cl.lu_hand(r)
+                    pa = None
+                cl.write('landuse', fa, p1)
+                fb = cl.open_lu(p1, r)
+                pb = present(fb)
+                if pa is not None:
+                    for c, det in diff_present(pa, pb):
+                        vs.append(viol('reread-' + c, sig, det, **scope))
+                for c, det in cl.lu_compare(fb, r):
+                    vs.append(viol('reread-source-' + c, sig, det, **scope))
+                cl.write('landuse', fb, p2)
+                b1, b2 = open(p1, 'rb').read(), open(p2, 'rb').read()
+                if b1 != b2:
+                    i = next((k for k in range(min(len(b1), len(b2))) if b1[k] != b2[k]), min(len(b1), len(b2)))
+                    vs.append(viol('rewrite-not-identical', sig, 'second write differs from the first at byte %d '
+                                   '(%d vs %d bytes)' % (i, len(b1), len(b2)), **scope))
+            except Exception as e:
+                vs.append(viol('raises', sig, '%s: %r' % (type(e).__name__, e), exc=type(e).__name__, **scope))
+        return result('viol' if vs else 'ok', vs, [h64(raw)], 7, h64('c08', sorted(d.items(), key=str)),
+                      h64(raw) if not vs else None)
+
     def run_one(self, d):
+        if d['fmt'] == 'landuse':
+            return self.run_landuse(d)
         r = camx_u.materialize(d)
         fmt = d['fmt']
         raw = camx_u.encode(r)
